@@ -892,7 +892,8 @@ func (dsc *dataStoreCommand) dump(keyName string) (output respValue) {
 func (dsc *dataStoreCommand) restore(keyName, serializedData string, ttl int64, absttl, replace bool) (output respValue) {
 	serial := []byte(serializedData)
 
-	if len(serial) < 10 || serial[0] != 1 {
+	// version byte, type byte, 4 length bytes, 8 checksum bytes
+	if len(serial) < 14 || serial[0] != 1 {
 		output.data = respErrorString("ERR DUMP payload version or checksum are wrong")
 		return
 	}
@@ -927,10 +928,15 @@ func (dsc *dataStoreCommand) restore(keyName, serializedData string, ttl int64, 
 		}
 	}
 
-	len := binary.BigEndian.Uint32(content[2:6])
+	payloadLen := binary.BigEndian.Uint32(content[2:6])
 	var serialBytes []byte
-	if len > 0 {
-		serialBytes = content[6 : 6+len-1]
+	if payloadLen > 0 {
+		// the length is part of the client's payload: it has to describe bytes that are there
+		if int64(payloadLen)-1 > int64(len(content))-6 {
+			output.data = respErrorString("ERR DUMP payload version or checksum are wrong")
+			return
+		}
+		serialBytes = content[6 : 6+payloadLen-1]
 	}
 
 	newSk := dsc.ds.newStoreKeyUnlocked(keyName)
